@@ -165,8 +165,15 @@ func runC05StreamInner(c *C05StreamCase) (res c05sResult) { //nolint:cyclop
 		from string
 		data []byte
 	}
+	// the application keeps every address ReadFrom gave it (to answer later): what an address says
+	// must not change when further datagrams arrive
+	type heldAddr struct {
+		addr net.Addr
+		said string
+	}
 	var rmu sync.Mutex
 	var got []rx
+	var held []heldAddr
 	go func() {
 		buf := make([]byte, 70000)
 		for {
@@ -176,6 +183,7 @@ func runC05StreamInner(c *C05StreamCase) (res c05sResult) { //nolint:cyclop
 			}
 			rmu.Lock()
 			got = append(got, rx{from.String(), append([]byte{}, buf[:k]...)})
+			held = append(held, heldAddr{from, from.String()})
 			rmu.Unlock()
 		}
 	}()
@@ -259,6 +267,15 @@ func runC05StreamInner(c *C05StreamCase) (res c05sResult) { //nolint:cyclop
 		case g[0].from != want:
 			return fail("peer-to-client-attribution", "%s: ReadFrom attributes it to %s, it came from %s", ctx, g[0].from, want)
 		}
+		rmu.Lock()
+		for k, h := range held {
+			if now := h.addr.String(); now != h.said {
+				rmu.Unlock()
+
+				return fail("peer-to-client-attribution-rewritten", "%s: the address ReadFrom returned for an earlier datagram (no. %d from the peers) said %s then and says %s now", ctx, k, h.said, now)
+			}
+		}
+		rmu.Unlock()
 		res.delivered++
 	}
 	if c.Writers > 0 {
